@@ -19,8 +19,8 @@ from fractions import Fraction as Fr
 from harness.drive import f2b, b2f
 
 ID = "C04"
-THEOREM_MODULES = ["JF.Props.C04"]
-COMPONENTS = ["thin"]
+THEOREM_MODULES = ["JF.Props.C04", "JF.Props.C04Piecewise"]
+COMPONENTS = ["thin", "pcb"]
 ASSUMPTIONS = [
     "Dominates (the 1/r bound with the shipped prefactor is >= the merged-image Coulomb derivative on the whole "
     "minimum-image cube, positive where the latter is) is a HYPOTHESIS of the theorems: it is a supremum of a "
@@ -1077,6 +1077,8 @@ def run(ctx):
         part_kernel(ctx)
         part_bound_formula(ctx)
         part_handlers(ctx)
+        from harness import c04_piecewise      # the piecewise-constant bounding family (sequences on one handler object)
+        c04_piecewise.run(ctx)
         t1 = time.time()
         part_domination(ctx)
         t2 = time.time()
